@@ -31,7 +31,7 @@ impl Profile for Remotes {
     }
     fn gen_world(&self, rng: &mut Rng, reg: &Reg) -> WorldPlan {
         let p = pool(reg);
-        let n = rng.range(2, 4) as usize;
+        let n = rng.range(2, 4 + crate::extra_contracts()) as usize;
         let mut wp = simple_world(rng, reg, &p, n, false);
         // some instances are administrated by another contract of the world (admin helpers need it):
         // the first instance's address is not known yet, so the admin is patched after setup by
@@ -53,7 +53,7 @@ impl Profile for Remotes {
         sg.fail_pm = *rng.pick(&[0, 100]);
         sg.inst_pm = *rng.pick(&[0, 300, 600]);
         sg.admin_pm = *rng.pick(&[0, 300]);
-        sg.max_depth = rng.range(1, 3) as u32;
+        sg.max_depth = rng.range(1, 3 + crate::extra_depth()) as u32;
         let accounts = &base.accounts;
         let mut ops = vec![];
         // hand the admin role of a few instances to other contracts, so that admin helpers matter
@@ -74,7 +74,7 @@ impl Profile for Remotes {
             }
         }
         let mut tg = TrafficGen { sg, codes: &wp.codes, cross_migrate: false, model: vec![] };
-        let n = rng.range(3, 10);
+        let n = rng.range(3, 10 * crate::scale());
         for _ in 0..n {
             // mostly `go` with a script full of helper uses
             if rng.chance(2, 3) {
@@ -118,7 +118,7 @@ impl Profile for StoredHandles {
     }
     fn gen_world(&self, rng: &mut Rng, reg: &Reg) -> WorldPlan {
         let p: Vec<&Entry> = pool(reg).into_iter().filter(|e| e.spec.of_kind(Kind::Migrate).next().is_some()).collect();
-        let n = rng.range(2, 4) as usize;
+        let n = rng.range(2, 4 + crate::extra_contracts()) as usize;
         simple_world(rng, reg, &p, n, false)
     }
     fn gen_ops(&self, rng: &mut Rng, reg: &Reg, wp: &WorldPlan, base: &RunRecord) -> Vec<Op> {
@@ -129,7 +129,7 @@ impl Profile for StoredHandles {
         let mut contracts = base.contracts.clone();
         let accounts = &base.accounts;
         let mut ops = vec![];
-        let n = rng.range(4, 12);
+        let n = rng.range(4, 12 * crate::scale());
         let mut nonce = 0u64;
         for _ in 0..n {
             let ci = rng.below(contracts.len() as u64) as usize;
